@@ -567,6 +567,36 @@ Theorem pool_nil_same_par w s : reachable w s -> caller s = CReturn -> kind_of s
   results (cur s) = parallelize_alone (fp (epoch s)) (count s).
 Proof. exact (pool_safety_par w s). Qed.
 
+(* the explicit "reusable" form: after ANY history of calls that left the caller returned, the next call, under ANY
+   schedule, if it has returned, returned the right result and left every worker idle *)
+Theorem pool_next_call_par w calls c sched :
+  let s0 := run_calls V1 fp fs (pool_init w) calls in
+  let s := run1 (start_call s0 Par c) sched in
+  caller s0 = CReturn -> caller s = CReturn ->
+  results (cur s) = map (fun i => Some (fp (S (epoch s0)) i)) (seq 0 c) /\ all_idle s = true.
+Proof.
+  intros s0 s C0 C. pose proof (pool_reusable w calls) as R0. fold s0 in R0.
+  assert (R : reachable w s) by (apply run_reachable, R_call; auto).
+  destruct (run_static (start_call s0 Par c) sched) as (A & B0 & C1). fold s in A, B0, C1. cbn in A, B0, C1.
+  split; [|apply (pool_idle_after w s R C)].
+  rewrite (pool_safety_par w s R C B0). now rewrite A, C1.
+Qed.
+
+Theorem pool_next_call_srch w calls c sched : 1 <= w ->
+  let s0 := run_calls V1 fp fs (pool_init w) calls in
+  let s := run1 (start_call s0 Srch c) sched in
+  caller s0 = CReturn -> caller s = CReturn ->
+  length (results (cur s)) = c /\
+  Forall (fun r => exists x n, r = Some x /\ fs (S (epoch s0)) n = Some x) (results (cur s)) /\
+  all_idle s = true.
+Proof.
+  intros W s0 s C0 C. pose proof (pool_reusable w calls) as R0. fold s0 in R0.
+  assert (R : reachable w s) by (apply run_reachable, R_call; auto).
+  destruct (run_static (start_call s0 Srch c) sched) as (A & B0 & C1). fold s in A, B0, C1. cbn in A, B0, C1.
+  destruct (pool_safety_srch w s W R C B0) as (L & F). rewrite A, C1 in *.
+  repeat split; auto. apply (pool_idle_after w s R C).
+Qed.
+
 End V1.
 
 (* nil pool, Search: same specification (count non-nil answers of f), sequentially *)
@@ -600,7 +630,8 @@ Theorem v0_worker_leak fp fs :
   workers s = [(1, WNotify Par)] /\ existsb (blocked_forever s) (workers s) = true /\
   (forall l, run V0 fp fs s l = s) /\
   let s2 := start_call s Par 1 in
-  caller s2 = CSelect /\ (forall l, run V0 fp fs s2 l = s2).
+  caller s2 = CSelect /\ (forall l, run V0 fp fs s2 l = s2) /\
+  workers (teardown s) = [(1, WNotify Par)].
 Proof.
   cbn. repeat split; intros l; apply v0_quiescent_run; intros [|[|[|g]]]; reflexivity.
 Qed.
@@ -612,6 +643,29 @@ Theorem v0_search_nil fp fs x : fs 1 0 = Some x ->
   caller s = CReturn /\ results (cur s) = [None] /\ workers s = [(1, WSWrite 0 x)].
 Proof. intros F. cbn. unfold step; cbn. rewrite F. cbn. auto. Qed.
 
+(* the refutations in the shape "exists witness" (for every task function / for every f that succeeds at once) *)
+Theorem v0_worker_leak_refuted fp fs : exists w c sched,
+  let s := run V0 fp fs (start_call (pool_init w) Par c) sched in
+  caller s = CReturn /\ existsb (blocked_forever s) (workers s) = true /\
+  (forall l, all_idle (run V0 fp fs s l) = false) /\
+  (forall l, caller (run V0 fp fs (start_call s Par c) l) <> CReturn).
+Proof.
+  exists 1, 1, [1; 1; 1; 0]. destruct (v0_worker_leak fp fs) as (C & _ & W & Bf & Q & C2 & Q2 & _).
+  cbv zeta. repeat split; auto.
+  - intros l. rewrite Q. unfold all_idle. now rewrite W.
+  - intros l. rewrite Q2, C2. discriminate.
+Qed.
+
+Theorem v0_search_nil_refuted fp : exists fs w c sched,
+  (forall e n, fs e n <> None) /\
+  let s := run V0 fp fs (start_call (pool_init w) Srch c) sched in
+  caller s = CReturn /\ In None (results (cur s)).
+Proof.
+  exists (fun _ _ => Some 7%Z), 1, 1, [1; 1; 1; 1; 0]. split; [discriminate|].
+  destruct (v0_search_nil fp (fun _ _ => Some 7%Z) 7%Z eq_refl) as (C & R & _).
+  cbv zeta. rewrite R. split; [exact C | now left].
+Qed.
+
 (* ---------- exhaustive exploration of small instances (cross-check of model and theorems; not used in any proof) ---------- *)
 From MPS Require Import Model.DispatchPool.
 Lemma explore_checks :
@@ -619,10 +673,10 @@ Lemma explore_checks :
   explore_pool V1 Par 2 2 2 0 1000 = (mkC 108 1 0 0 0, true) /\
   explore_pool V1 Par 3 2 1 0 1000 = (mkC 121 1 0 0 0, true) /\
   explore_pool V1 Par 2 3 1 0 1000 = (mkC 93 1 0 0 0, true) /\
-  explore_pool V1 Srch 2 2 2 1 20000 = (mkC 3318 36 0 0 0, true) /\
+  explore_pool V1 Srch 2 2 2 1 (100 * 200) = (mkC 3318 36 0 0 0, true) /\
   (* V0: lost workers after one call, deadlock in the second; Search returns nil slots *)
   explore_pool V0 Par 1 1 2 0 1000 = (mkC 21 3 1 2 0, true) /\
   explore_pool V0 Par 2 2 2 0 1000 = (mkC 143 9 1 10 0, true) /\
   explore_pool V0 Srch 1 1 1 0 1000 = (mkC 17 2 0 1 1, true) /\
-  explore_pool V0 Srch 2 2 2 1 20000 = (mkC 2730 58 6 66 216, true).
+  explore_pool V0 Srch 2 2 2 1 (100 * 200) = (mkC 2730 58 6 66 216, true).
 Proof. vm_compute. repeat split. Qed.
